@@ -29,7 +29,10 @@ def demo(demo_path):
     dst = os.path.join("/repo", "zz_seed_demo_test.go")
     shutil.copy(demo_path, dst)
     try:
-        rc, out = sh(["go", "test", "-vet=off", "-count=1", "-run", "TestDemo", "."], cwd="/repo", timeout=900)
+        cmd = ["go", "test", "-vet=off", "-count=1", "-run", "TestDemo", "."]
+        if os.environ.get("SEED_DEMO_RACE"):
+            cmd.insert(2, "-race")
+        rc, out = sh(cmd, cwd="/repo", timeout=900)
     finally:
         os.remove(dst)
     return rc == 0, out[-1500:]
